@@ -534,6 +534,7 @@ func runC13(rc *runCtx) *RunResult {
 		}
 		for i := range steps {
 			cur = i
+			core.OpBoundary()
 			h := &steps[i]
 			o := world[h.Obj]
 			switch h.Kind {
@@ -597,7 +598,8 @@ func runC13(rc *runCtx) *RunResult {
 			h.done = true
 		}
 	}
-	core.S.BeginRun(1, core.StratCfg{Force: core.StratSerial, EstSF: 1000, EstTotal: 400000})
+	// step bound per operation: 2*10^8 yields (a call on these small worlds needs 10^3..10^7)
+	core.S.BeginRun(1, core.StratCfg{Force: core.StratSerial, EstSF: 1000, EstTotal: 4000000})
 	verdict, panics := core.RunTasks([]func(){task}, func(x any) string { return fmt.Sprint(x) })
 	s := &core.S
 	rc.inc("histories", 1)
